@@ -11,11 +11,11 @@ open MosnVerif
 
 theorem lookup_aset_self (k : KV) (t : Trie) (r : Root) : List.lookup k (aset k t r) = some t := by
   induction r with
-  | nil => simp [aset, List.lookup]
+  | nil => simp [aset]
   | cons x r ih =>
     obtain ⟨k', t'⟩ := x
     by_cases h : k' = k
-    · subst h; simp [aset, List.lookup]
+    · subst h; simp [aset]
     · have h' : (k' == k) = false := by simpa using h
       have h'' : (k == k') = false := by simpa using fun e => h e.symm
       simp [aset, h', List.lookup, h'', ih]
@@ -89,7 +89,7 @@ theorem lbAt_cons (root : Root) (kv : KV) (rest : Path) :
     | nil => simp [Trie.fresh, Trie.lb]
     | cons a b =>
       have : lbAt [] (a :: b) = none := lbAt_empty_root _
-      simp [Trie.fresh, Trie.children, findS, List.lookup]
+      simp [Trie.fresh, Trie.children, findS]
   | some e =>
     cases rest with
     | nil => simp
@@ -428,7 +428,7 @@ theorem lookup_foldl_idxStep (hosts : List Host) (k : Key) (v : Val) (is : List 
     rw [List.foldl_cons, ih]
     unfold idxStep
     cases hm : metaAt hosts i k with
-    | none => simp [List.filter_cons, hm]
+    | none => simp [hm]
     | some w =>
       by_cases hw : w = v
       · subst hw
@@ -459,7 +459,7 @@ theorem lookup_mkIndex (hosts : List Host) (keys : List Key) (k : Key) :
   | nil => simp
   | cons x keys ih =>
     by_cases h : k = x
-    · subst h; simp [List.lookup]
+    · subst h; simp
     · have h1 : (k == x) = false := by simpa using h
       simp [List.lookup, h1, ih, h]
 
